@@ -221,23 +221,32 @@ class C04(Prop):
     search_seeds = 3
     search_n = 3000
     classes = {"L2": 1}
-    bits = {4: "a modelled lint reported code on which its documented condition, literals judged by value, is false",
+    bits = {4: "a modelled lint reported code on which its documented condition (literals judged by value, code compared by its tokens) is false",
             8: "a modelled lint did not report its canonical pattern in some enclosing context",
-            16: "an unmodelled lint's verdict on a positive / negative template differs from the documented one"}
+            16: "a lint's verdict on a positive / negative template differs from the documented one"}
     rule = ("(1) divide_by_zero / compare_nan / suspicious_reverse_loop / empty_if / empty_loop / unbalanced_assignments / mixed_table / "
             "duplicate_keys / parenthese_conditions / constant_table_comparison / type_check_inside_call: documented "
             "patterns and near misses with zeros and loop ends in every spelling (decimal, float, exponent, hex, leading zeros) and "
             "operands from a small expression grammar, each embedded in one of 8 enclosing contexts, optionally after a generated "
             "program; whole tree dumped, diagnostics counted per code; (2) mismatched_arg_count: 7 parameter lists x 0-4 arguments of 8 "
-            "kinds (calls and `...` in every position) + string/table call sugar; (3) 44 positive/negative templates (all 10 lints outside the first group, 5 of which are now also modelled) "
-            "that are not modelled, in the same contexts; (4) bad_string_escape: quoted literals assembled from escape pieces (every "
+            "kinds (calls and `...` in every position) + string/table call sugar; (3) 44 positive/negative templates of the lints outside "
+            "the first group, in the same contexts; (4) bad_string_escape: quoted literals assembled from escape pieces (every "
             "escape kind, hex runs, braces, non-ASCII characters and digits) under lua51 and the Roblox base library; "
-            "non-trivial = all; distinct = distinct sources")
+            "(5) ifs_same_cond / if_same_then_else / almost_swapped: if-chains with 0-3 elseifs and optional else whose conditions and "
+            "blocks are drawn from small pools (26 conditions: calls in operands, in bracket indices, in table constructors, inside "
+            "function bodies; 14 blocks incl. return-only and empty ones) and re-spelled with different trivia, and runs of single / "
+            "multiple assignments over 10 targets, in 9 enclosing contexts, optionally after a generated program; (6) multiple_statements: "
+            "statements, one-line and multi-line ifs, loops, nested function arguments and returns laid out with random separators "
+            "(space, newline, `;`) under the three one_line_if settings, the visit-ordered (end line, then-line) events measured with "
+            "full_moon and run through the model; non-trivial = all except (5)/(6) cases without a diagnostic; distinct = distinct sources")
     trusted_base = [
         "modelled: the twelve lints named above over the dumped syntax tree (Lints/Closed.v) and the scan of bad_string_escape over a literal's bytes (Lints/Escape.v, (4)); nodes_* enumerates what full_moon's "
         "Visitor reaches; diagnostics are compared by count per code, not by range",
-        "the other four lints of the property (if_same_then_else, ifs_same_cond, almost_swapped, multiple_statements) "
-        "are tested against template verdicts only: no theorem covers them",
+        "modelled: ifs_same_cond, if_same_then_else, almost_swapped and has_side_effects (Lints/Same.v); full_moon's Node::similar is modelled as "
+        "equality of the token texts in source order (separators of punctuated lists spelled canonically); the optional `;` after a statement is "
+        "not in the tree: chunks with one are flagged by the harness and only checked for over-reporting",
+        "modelled: multiple_statements as a machine over (end line, then-line, block shape) events (Lints/Lines.v); the events themselves are "
+        "measured from full_moon's positions by the harness with the same accessors the lint uses - line arithmetic is not modelled",
         "f32 rounding is not modelled: loop ends within 2^-24 of 1 are not generated",
     ]
     assumptions = ["empty_if / empty_loop run with comments_count = false (the default)"]
